@@ -2,7 +2,7 @@
    bytes of a video NAL unit start exactly sh_size / s_size bytes in (the bytes the C15 parser consumed), and the
    sample crypt over these ranges is the reference 1:9 CBC pattern. *)
 From V.lib Require Import Base.
-From V.c07 Require Import C07Model C07Spec C07RangeProofs C07CbcsProofs C07FinalProofs C07CodecModel.
+From V.c07 Require Import C07Model C07Spec C07RangeProofs C07CbcsProofs C07FinalProofs C07CodecModel C07SizeProofs.
 From V.c15 Require Import C15Model C15HevcModel.
 
 (* slice header size as a total function (0 where the header does not parse: never used there) *)
@@ -54,11 +54,11 @@ Proof. intros H. unfold hevc_hdr. rewrite H. reflexivity. Qed.
 
 Definition avc_headers_parse spsmap ppsmap (nalus : list (list N)) : Prop :=
   forall n, In n nalus -> first_is_video avc_is_video n = true ->
-    exists sh, parse_slice_er spsmap ppsmap n = Ok sh /\ sh_size sh <= lenN n.
+    exists sh, parse_slice_er spsmap ppsmap n = Ok sh.
 
 Definition hevc_headers_parse spsmap ppsmap (nalus : list (list N)) : Prop :=
   forall n, In n nalus -> first_is_video hevc_is_video n = true ->
-    exists sh, hparse_slice_er spsmap ppsmap n = Ok sh /\ s_size sh <= lenN n.
+    exists sh, hparse_slice_er spsmap ppsmap n = Ok sh.
 
 Lemma cbcs_shape_avc (E D : list N -> list N -> list N) spsmap ppsmap key iv nalus :
   (forall k b, length (E k b) = 16%nat) -> (forall k b, length (D k b) = 16%nat) ->
@@ -74,8 +74,8 @@ Lemma cbcs_shape_avc (E D : list N -> list N -> list N) spsmap ppsmap key iv nal
 Proof.
   intros HE HD Hk Hiv Hwf Hlen Hp.
   assert (Hp' : headers_parse avc_is_video (avc_hdr spsmap ppsmap) nalus).
-  { intros n Hin Hv. destruct (Hp n Hin Hv) as (sh & Hsh & Hle). exists (sh_size sh).
-    split; [apply avc_hdr_parse; exact Hsh|exact Hle]. }
+  { intros n Hin Hv. destruct (Hp n Hin Hv) as (sh & Hsh). exists (sh_size sh).
+    split; [apply avc_hdr_parse; exact Hsh|apply (avc_slice_size_le _ _ _ _ Hsh)]. }
   destruct (cbcs_shape_hdr _ _ nalus Hwf Hlen Hp') as (r & Hr & Hm & Hs & Hc).
   exists r. repeat split; try assumption.
   apply cbcs_matches_reference_final; try assumption. rewrite Hs. apply N.le_refl.
@@ -95,9 +95,63 @@ Lemma cbcs_shape_hevc (E D : list N -> list N -> list N) spsmap ppsmap key iv na
 Proof.
   intros HE HD Hk Hiv Hwf Hlen Hp.
   assert (Hp' : headers_parse hevc_is_video (hevc_hdr spsmap ppsmap) nalus).
-  { intros n Hin Hv. destruct (Hp n Hin Hv) as (sh & Hsh & Hle). exists (s_size sh).
-    split; [apply hevc_hdr_parse; exact Hsh|exact Hle]. }
+  { intros n Hin Hv. destruct (Hp n Hin Hv) as (sh & Hsh). exists (s_size sh).
+    split; [apply hevc_hdr_parse; exact Hsh|apply (hevc_slice_size_le _ _ _ _ Hsh)]. }
   destruct (cbcs_shape_hdr _ _ nalus Hwf Hlen Hp') as (r & Hr & Hm & Hs & Hc).
   exists r. repeat split; try assumption.
   apply cbcs_matches_reference_final; try assumption. rewrite Hs. apply N.le_refl.
+Qed.
+
+(* ---------------------------------------------------------------- the slice header does not parse *)
+(* the exact outcome when avc/hevc.ParseSliceHeader returns an error for some video NAL unit (truncated slice, unknown
+   PPS / SPS id, a "video" NAL unit type without slice header syntax, an empty NAL unit): the first such NAL unit makes
+   Get(AVC|HEVC)ProtectRanges return the error - the sample (and with it the fragment: EncryptFragment returns
+   "get protect ranges: ...") is refused, nothing is described wrongly *)
+Section Refused.
+  Variable isvideo : N -> bool.
+  Variable hdr : list N -> res N.
+
+  Lemma cbcs_unparsable_refused pre n post :
+    (forall m, In m pre -> nonempty m = true /\
+               (first_is_video isvideo m = true -> exists h, hdr m = Ok h /\ h <= lenN m)) ->
+    first_is_video isvideo n = true -> hdr n = Err ->
+    lenN (frames (pre ++ n :: post)) < 4294967296 ->
+    protect_ranges_r isvideo hdr Cbcs (frames (pre ++ n :: post)) = Err.
+  Proof.
+    intros Hpre Hv Hh Hlen. destruct n as [|b0 t]; [discriminate|]. cbn [first_is_video] in Hv.
+    apply (protect_ranges_hdr_err isvideo hdr Cbcs (p_cbcs isvideo (hs_of hdr)) (fun _ => True) I pre b0 t post
+             eq_refl Hv Hh Hlen).
+    apply Forall_forall. intros m Hm. split; [|exact I]. destruct (Hpre m Hm) as [Hne Hp].
+    destruct m as [|c0 u]; [discriminate|]. unfold decides, p_cbcs, hs_of. cbn [first_is_video] in *.
+    destruct (isvideo c0); [|reflexivity].
+    destruct (Hp eq_refl) as (h & H1 & H2). exists h. rewrite H1. split; [reflexivity|]. split; [exact H2|reflexivity].
+  Qed.
+End Refused.
+
+Lemma cbcs_unparsable_refused_avc spsmap ppsmap pre n post :
+  (forall m, In m pre -> nonempty m = true /\
+             (first_is_video avc_is_video m = true -> exists sh, parse_slice_er spsmap ppsmap m = Ok sh)) ->
+  first_is_video avc_is_video n = true -> parse_slice_er spsmap ppsmap n = Err ->
+  lenN (frames (pre ++ n :: post)) < 4294967296 ->
+  avc_protect_ranges spsmap ppsmap Cbcs (frames (pre ++ n :: post)) = Err.
+Proof.
+  intros Hpre Hv Hh Hlen. unfold avc_protect_ranges. apply cbcs_unparsable_refused; try assumption.
+  - intros m Hm. destruct (Hpre m Hm) as [H1 H2]. split; [exact H1|]. intros Hvm.
+    destruct (H2 Hvm) as (sh & Hsh). exists (sh_size sh).
+    split; [apply avc_hdr_parse; exact Hsh|apply (avc_slice_size_le _ _ _ _ Hsh)].
+  - unfold avc_hdr. rewrite Hh. reflexivity.
+Qed.
+
+Lemma cbcs_unparsable_refused_hevc spsmap ppsmap pre n post :
+  (forall m, In m pre -> nonempty m = true /\
+             (first_is_video hevc_is_video m = true -> exists sh, hparse_slice_er spsmap ppsmap m = Ok sh)) ->
+  first_is_video hevc_is_video n = true -> hparse_slice_er spsmap ppsmap n = Err ->
+  lenN (frames (pre ++ n :: post)) < 4294967296 ->
+  hevc_protect_ranges spsmap ppsmap Cbcs (frames (pre ++ n :: post)) = Err.
+Proof.
+  intros Hpre Hv Hh Hlen. unfold hevc_protect_ranges. apply cbcs_unparsable_refused; try assumption.
+  - intros m Hm. destruct (Hpre m Hm) as [H1 H2]. split; [exact H1|]. intros Hvm.
+    destruct (H2 Hvm) as (sh & Hsh). exists (s_size sh).
+    split; [apply hevc_hdr_parse; exact Hsh|apply (hevc_slice_size_le _ _ _ _ Hsh)].
+  - unfold hevc_hdr. rewrite Hh. reflexivity.
 Qed.
